@@ -47,5 +47,10 @@ class MeshHex2(MeshHex1):
     )
     elem: Type[Element] = ElementHex2
 
+    @classmethod
+    def init_refdom(cls):
+        # the reference cell has no mid-side nodes: the first-order mesh
+        return MeshHex1.init_refdom()
+
     def _uniform(self):
         return MeshHex2.from_mesh(MeshHex1.from_mesh(self).refined())
